@@ -330,3 +330,44 @@ Theorem dict_is_history_refuted :
   forall m0, m_tmp m0 0 <> 7 ->       (* tmpOutBuffer comes from malloc: its initial content is arbitrary *)
     ~ dict_is_history (exec_ops m0 wit_ops) wit_d (r_out wit_r).
 Proof. destruct wit_refutes as (A & B & _ & C). auto. Qed.
+
+(* ---- the statements for whole sessions (NOT proved; [tmpOut_in_bounds_partial] is the function-level part,
+   the oracle evaluates [ops_okb] on every call of the correspondence runs) ------------------------------ *)
+Record ddcall := mkDC { dc_src : list byte; dc_cap : Z; dc_o : dopts; dc_dst : Z;
+                        dc_dict : option (list byte * Z) (* LZ4F_decompress_usingDict: bytes, address *) }.
+(* the calls of a session on one context, until the first error; per call: state after, the call, its operations *)
+Fixpoint dd_session (bdec : list byte -> list byte -> option (list byte)) (s : dstate) (d : ddict) (cs : list ddcall)
+  : list (dstate * ddcall * list mop) :=
+  match cs with
+  | [] => []
+  | c :: cs' =>
+    let '(s', r, d', ops) :=
+      match dc_dict c with
+      | None => dd_decompress bdec s d (dc_src c) (dc_cap c) (dc_o c) (dc_dst c)
+      | Some (dict, a) => dd_decompress_usingDict bdec s d (dc_src c) (dc_cap c) dict a (dc_o c) (dc_dst c)
+      end in
+    (s', c, ops) :: (if r_ret r <? 0 then [] else dd_session bdec s' d' cs')
+  end.
+Definition tmpOut_in_bounds_full_statement : Prop :=
+  forall bdec cs, Forall (fun c => 0 <= dc_cap c) cs ->
+    Forall (fun x => let '(s', c, ops) := x in
+                     Forall (op_ok (d_maxBuf s') (dc_dst c) (dc_dst c + dc_cap c)) ops)
+           (dd_session bdec dctx_init dd_init cs).
+(* the abstract half of the concrete call is Model.FrameD's call: the bookkeeping rides along *)
+Lemma dd_run_abstract bdec o dst : forall fuel l d ops,
+  fst (fst (fst (dd_run bdec fuel o dst l d ops))) = fst (run bdec fuel o l) /\
+  snd (fst (fst (dd_run bdec fuel o dst l d ops))) = snd (run bdec fuel o l).
+Proof.
+  induction fuel as [|f IH]; intros l d ops; cbn [dd_run run]; [auto|].
+  destruct (iter bdec o l) as [l' oc]. destruct (dd_step o dst l l' oc d) as [d' ops'].
+  destruct oc; cbn [fst snd]; auto.
+Qed.
+Theorem dd_decompress_abstract bdec s d src cap o dst :
+  fst (fst (dd_decompress bdec s d src cap o dst)) = decompress bdec s src cap o.
+Proof.
+  unfold dd_decompress, decompress.
+  pose proof (dd_run_abstract bdec o dst (call_fuel src) (mkL (set_skip s (d_skip s || o_skip o)) src 0 [] cap) d []) as [A B].
+  destruct (dd_run _ _ _ _ _ _ _) as [[[l f] d1] ops1]. cbn [fst snd] in A, B.
+  destruct (run _ _ _ _) as [l2 f2]. cbn [fst snd] in A, B. subst l2 f2.
+  destruct f; [destruct (dd_endcall _ _ _ _) as [d2 ops2]|..]; reflexivity.
+Qed.
